@@ -8,7 +8,7 @@ import formmodel
 from props.c11 import random_corr
 
 PID = 'C10'
-MODULES = ['FFVerif.Proofs.C10', 'FFVerif.Proofs.C10Loop', 'FFVerif.Proofs.C11Chol']
+MODULES = ['FFVerif.Proofs.C10', 'FFVerif.Proofs.C10Loop', 'FFVerif.Proofs.C11Chol', 'FFVerif.Proofs.VecGen']
 
 
 def fail(res, clause, case, out, sig=None):
@@ -186,6 +186,8 @@ def run(tier, seed):
     res.rule = ('random linear limit states of jointly normal variables: dimension 1-5, integer coefficients, random positive-definite '
                 'correlation, target beta in {-1.5 .. 3.5} (origin in the failure set included); one-variable problems (thresholds in both tails, around the median, between median and mean) over eleven marginal '
                 'families; distinct by problem')
+    import translate_vec
+    translate_vec.regenerate(res)      # Gen/VecFormulas.lean from the current source (numpy vector expressions)
     core.prove(res, PID, MODULES, clean=(tier == 'thorough'))
     n = 12 if tier == 'quick' else 300
     explore(res, random.Random(seed), n)
